@@ -273,6 +273,9 @@ func Decrypt(priv *EncryptPrivateKey, uid, ciphertext []byte, opts EncrypterOpts
 		opts = DefaultEncrypterOpts
 	}
 
+	if len(ciphertext) < 64+sm3.Size {
+		return nil, ErrDecryption
+	}
 	c1 := ciphertext[:64]
 	c3c2 := ciphertext[64:]
 	c3 := c3c2[:sm3.Size]
